@@ -13,7 +13,9 @@ request `["case", vars, cons, hints, limit, implSols, cnf, assumptions, satModel
   satModels   : models returned by `solve_sat`, each the list of variables that are true
   litmap      : per variable `[[value, boolean], …]` as in `IntVar.bool_vars`
   mode        : bit 0 = projected enumeration of `cnf`, bit 1 = run the DFS mirror,
-                bit 2 = return the mirror clause list, bit 3 = skip the exhaustive enumeration
+                bit 2 = return the mirror clause list, bit 3 = skip the exhaustive enumeration,
+                bit 4 = decide satisfiability of `cnf` under the assumptions (reference DPLL; else `false`)
+                bit 3 detail:
                 (large routing cases: `sols`/`hintSols` are then `[]` and mean nothing)
   hidden      : indices of variables declared without a name (`_v<k>`, not part of results)
 reply `[sols, hintSols, implChecks, mirrorCnf, chooseSat, dfsSols, cnfInfo]`
@@ -108,7 +110,7 @@ def handleCase (vars cons hints limit impl cnf assum smods litmap mode hidden : 
         | none => Val.null
         | some f =>
           let wf := decide (WF f)
-          let satA := wf && solve (f ++ assum.map fun l => [l])
+          let satA := wf && mode / 16 % 2 == 1 && solve (f ++ assum.map fun l => [l])
           let mchk := smods.map fun ts => Val.bool (cnfTrue (ofTrue ts) f)
           let proj : Val :=
             if wf && mode % 2 == 1 then
